@@ -353,13 +353,15 @@ def gen_request(rng, w, p, names):
         props = {"name": name, "signum": rng.choice([SIGHUP, SIGUSR1, "usr2", SIGTERM, SIGKILL, "int"])}
         if rng.random() < p.get("sigkill", 0.0):
             props["signum"] = rng.choice([SIGKILL, "kill", "SIGKILL", "9"])
+        elif rng.random() < p.get("sigsoft", 0.0):
+            props["signum"] = rng.choice([0, int(_signal.SIGWINCH), "chld", "SIGURG"])   # nobody dies of these
         if rng.random() < 0.5:
             props["pidsel"] = rng.randint(0, 3)
         elif rng.random() < p.get("anypid", 0.0):
             props["pidany"] = rng.randint(0, 9)      # some other watcher's worker, a child, a dead or unrelated pid
         if rng.random() < 0.3:
             props["children"] = True
-        if rng.random() < 0.3:
+        if rng.random() < p.get("sigrec", 0.3):
             props["recursive"] = True
         if rng.random() < p.get("childsel", 0.0):
             props["childsel"] = rng.randint(0, 2)       # one child of the addressed worker (needs pid; without: refused)
